@@ -39,6 +39,7 @@ func (e *fnEnc) bindResults(v ssa.Value, sig *types.Signature, terms []string) {
 }
 
 func (e *fnEnc) freshResults(v ssa.Value, sig *types.Signature, hint string) []string {
+	e.bumpClock()
 	res := sig.Results()
 	var out []string
 	for k := 0; k < res.Len(); k++ {
@@ -50,6 +51,79 @@ func (e *fnEnc) freshResults(v ssa.Value, sig *types.Signature, hint string) []s
 }
 
 func (e *fnEnc) call(v ssa.Value, c *ssa.CallCommon, instr ssa.Instruction) {
+	e.call0(v, c, instr)
+	e.siteAsserts(v, c, instr)
+}
+
+// siteAsserts checks `at call NAME#k assert` clauses right after the matching call.
+func (e *fnEnc) siteAsserts(v ssa.Value, c *ssa.CallCommon, instr ssa.Instruction) {
+	if !e.top || e.contract == nil || len(e.contract.AtCalls) == 0 {
+		return
+	}
+	var names []string
+	if fn := e.staticCallee(c); fn != nil {
+		names = append(names, fn.Name(), fn.String())
+		if fn.Pkg != nil {
+			names = append(names, fn.RelString(fn.Pkg.Pkg))
+		}
+	} else if c.IsInvoke() {
+		names = append(names, c.Method.Name())
+	} else if b, ok := c.Value.(*ssa.Builtin); ok {
+		names = append(names, b.Name())
+	}
+	if e.callOrd == nil {
+		e.callOrd = map[string]int{}
+	}
+	seen := map[string]bool{}
+	for _, n := range names {
+		if seen[n] {
+			continue
+		}
+		seen[n] = true
+		site := fmt.Sprintf("%s#%d", n, e.callOrd[n])
+		e.callOrd[n]++
+		for _, cl := range e.contract.AtCalls {
+			if cl.Site != site {
+				continue
+			}
+			idx := -1
+			for k, in := range e.curBlk.Instrs {
+				if in == instr {
+					idx = k
+				}
+			}
+			env := e.newEnv()
+			env.heapAt = e.cur
+			env.oldHeap = e.entryHeap
+			blk := e.curBlk
+			env.lookup = func(name string) (TV, bool) {
+				if name == "result" && v != nil {
+					if ts, ok := e.tuples[v]; ok {
+						res := c.Signature().Results()
+						return TV{ts[0], e.S().SortOf(res.At(0).Type()), res.At(0).Type()}, true
+					}
+					return TV{e.term(v), e.S().SortOf(v.Type()), v.Type()}, true
+				}
+				return e.varAtIdx(name, blk, idx, nil, e.cur)
+			}
+			f, err := env.Bool(cl.Expr)
+			if err != nil {
+				e.fail("at call %s assert %q: %v", cl.Site, cl.Src, err)
+			}
+			props := cl.Props
+			if len(props) == 0 {
+				props = e.contract.Props
+			}
+			tag := cl.Tag
+			if tag == "" {
+				tag = "a"
+			}
+			e.vc.oblige(&Obligation{Name: fmt.Sprintf("%s#assert:%s@%s", FuncKey(e.fn), tag, cl.Site), Kind: "assert", Guard: e.guard(), Cond: f, Props: props, Pos: instr.Pos(), Src: cl.Src})
+		}
+	}
+}
+
+func (e *fnEnc) call0(v ssa.Value, c *ssa.CallCommon, instr ssa.Instruction) {
 	if b, ok := c.Value.(*ssa.Builtin); ok {
 		e.builtin(v, b, c, instr)
 		return
@@ -341,7 +415,6 @@ func (e *fnEnc) inline(v ssa.Value, fn *ssa.Function, c *ssa.CallCommon, args []
 			child.val[fv] = e.term(mc.Bindings[k])
 		}
 	}
-	child.allocs = e.allocs
 	child.cur = copyMap(e.cur)
 	child.entryHeap = copyMap(e.cur)
 	inlineStack = append(inlineStack, fn)
@@ -362,7 +435,6 @@ func (e *fnEnc) inline(v ssa.Value, fn *ssa.Function, c *ssa.CallCommon, args []
 	e.vc.inlineDepth--
 	inlineStack = inlineStack[:len(inlineStack)-1]
 	e.curBlk = savedBlk
-	e.allocs = child.allocs
 	e.vc.note("transparent (body-as-contract) callee: %s", FuncKey(fn))
 	// merge returns
 	res := fn.Signature.Results()
@@ -487,12 +559,7 @@ func (e *fnEnc) appendBuiltin(v ssa.Value, c *ssa.CallCommon) {
 	s := e.term(c.Args[0])
 	st := c.Args[0].Type().Underlying().(*types.Slice)
 	ek := e.S().ElemKey(st.Elem())
-	r := e.vc.fresh("appendref", "Int")
-	e.vc.assume("(> " + r + " 0)")
-	for _, a := range e.allocs {
-		e.vc.assume(fmt.Sprintf("(not (= %s %s))", r, a))
-	}
-	e.allocs = append(e.allocs, r)
+	r := e.freshRefRaw("appendref")
 	capn := e.vc.fresh("appendcap", "Int")
 	h := e.heap(ek)
 	oldRow := fmt.Sprintf("(select %s (c-ref %s))", h, s)
